@@ -1,6 +1,7 @@
 package props
 
 import (
+	"verif/harness/pgfake"
 	"bytes"
 	"context"
 	"database/sql"
@@ -97,7 +98,7 @@ var (
 // next block, the age increment, the pointer fallback and the selection are all the repository's.
 func TestC19_SlotPath(t *testing.T) {
 	rec := recorder("C19")
-	rec.AddRule("slot path: the real maybeTriggerDecryption over a generated synced state (synced-until block and slot moving across the activation block of a second keyper set, queues and pointer rows per set, proposer duties from an in-memory consensus-node API, validator registrations), interleaved with received keys, restarts (ages reset, fresh keyper object) and queue growth. Judged whenever a trigger is emitted: it names the slot and the next block, its identities are the reference selection for the keyper set in force at the next block with the pointer age one higher than before the call, and the current_decryption_trigger row matches. Whether a trigger is emitted at all (membership, proposer registration, stale slots) is recorded as labels, not judged. non-trivial as in the first C19 test, or the keyper set in force changed during the history")
+	rec.AddRule("slot path: the real maybeTriggerDecryption over a generated synced state (synced-until block and slot moving across the activation block of a second keyper set, queues and pointer rows per set, proposer duties from an in-memory consensus-node API, validator registrations), interleaved with received keys, restarts (ages reset, fresh keyper object) and queue growth; one slot in six is presented twice (as the previous block and the slot ticker do) with one failing database statement in the first call: the pointer age rises by at most one over the two calls. Judged whenever a trigger is emitted: it names the slot and the next block, its identities are the reference selection for the keyper set in force at the next block with the pointer age one higher than before the call, and the current_decryption_trigger row matches. Whether a trigger is emitted at all (membership, proposer registration, stale slots) is recorded as labels, not judged. non-trivial as in the first C19 test, or the keyper set in force changed during the history")
 	c19BeaconOnce.Do(func() { c19Beacon = newFakeBeacon(16) })
 	bc, err := beaconapiclient.New("http://" + fakeBeaconHost)
 	if err != nil {
@@ -227,6 +228,41 @@ func TestC19_SlotPath(t *testing.T) {
 				es := inForce(nextBlock)
 				cfg := int64(es.KeyperConfigIndex)
 				readPointer(cfg)
+				if rapid.IntRange(0, 5).Draw(rt, "slotFault") == 0 {
+					// every slot reaches maybeTriggerDecryption twice in production (from the previous block and
+					// from the slot ticker). Here one database statement of the first call fails; a keyper that
+					// saw the fault must not count the slot twice (keypers that did not see it count it once)
+					ageOf := func() (int64, bool) {
+						readPointer(cfg)
+						if p := model.Pointer[cfg]; p != nil && p.Age != nil {
+							return *p.Age, true
+						}
+						return 0, false
+					}
+					a0, ok0 := ageOf()
+					k := rapid.IntRange(1, 8).Draw(rt, "slotFaultAt")
+					n.Srv.SetFault(n.Srv.RoundTrips()+int64(k), pgfake.FaultError)
+					err1 := kpr.VerifMaybeTriggerDecryption(ctx, slot)
+					fired := n.Srv.FaultFired()
+					n.Srv.SetFault(0, pgfake.FaultNone)
+					for len(trigCh) > 0 {
+						<-trigCh
+					}
+					err2 := kpr.VerifMaybeTriggerDecryption(ctx, slot)
+					for len(trigCh) > 0 {
+						<-trigCh
+					}
+					a2, ok2 := ageOf()
+					desc = append(desc, fmt.Sprintf("slot(%d,cfg%d) twice, statement %d of the first call fails (fired=%v, err=%v / %v): age %d->%d", slot, cfg, k, fired, err1 != nil, err2 != nil, a0, a2))
+					if ok0 && ok2 && a2 > a0+1 {
+						fatalf(rt, "slot-counted-twice-after-a-failed-statement", "the pointer age of keyper set %d went from %d to %d over the two calls for slot %d (a keyper that saw no fault counts the slot once)\nhistory: %s", cfg, a0, a2, slot, history())
+					}
+					if fired {
+						nontrivial = true
+						labels = append(labels, "slot-path:database-statement-failed-in-the-first-call-for-a-slot")
+					}
+					continue
+				}
 				err := kpr.VerifMaybeTriggerDecryption(ctx, slot)
 				var ev *broker.Event[*epochkghandler.DecryptionTrigger]
 				select {
